@@ -156,3 +156,31 @@ func (m *RWMutex) RUnlock() {
 	m.addReader(-1)
 	m.real.RUnlock()
 }
+
+// Once with the same discipline: callers that arrive while f is running wait on a simulator Mutex (spinning with
+// yields), not on a real one; the real sync.Once underneath keeps the happens-before edge Do gives its callers.
+type Once struct {
+	m    Mutex
+	done bool
+	real sync.Once
+}
+
+//go:norace
+func (o *Once) isDone() bool { return o.done }
+
+//go:norace
+func (o *Once) setDone() { o.done = true }
+
+func (o *Once) Do(f func()) {
+	if !o.isDone() {
+		o.m.Lock()
+		if !o.isDone() {
+			defer o.m.Unlock()
+			defer o.setDone()
+			o.real.Do(f)
+			return
+		}
+		o.m.Unlock()
+	}
+	o.real.Do(func() {}) // already done: synchronise with the call that ran f, as sync.Once does
+}
